@@ -88,6 +88,8 @@ func runC01(c *Ctx) {
 	R.Rule("C01.R4", "the Doctype arm writes nothing")
 	R.Rule("C01.R5", "comment gate: the comment write happens only under allowComments and its payload is token.String()")
 	R.Rule("C01.R6", "an unknown token type returns a non-nil error and writes nothing")
+	R.Rule("C01.R9", "the library never registers an element pattern itself: the functions that store into the element-pattern table (the exported pattern builders) are not called from within the module")
+	noInternalPatternRegistration(c, "C01.R9")
 	R.Rule("C01.R8", "an element enters the allowlist only for a reason: in the attribute builders (OnElements, OnElementsMatching) an element's table entry is created only inside the loop over the attribute names being registered, or under the builder's allow-without-attributes flag — AllowAttrs() with no names must not allowlist anything")
 	R.Rule("C01.R7", "the element tables (elsAndAttrs, elsMatchingAndAttrs) are written only by builder methods, never on a sanitising path (except the !initialized-guarded makes in init)")
 	R.Assume(TrustGo, TrustTokenizer, TrustTokenString, "what a browser's HTML5 parser makes of the emitted bytes (token splitting/merging, foreign content, unescaped characters inside admitted tag names) is NOT decided")
@@ -406,7 +408,9 @@ func tableWriters(c *Ctx, rule string, roles []string) {
 }
 
 // c01EntryCreation (C01.R8): creation of element-table entries in the attribute builders.
-func c01EntryCreation(c *Ctx) {
+func c01EntryCreation(c *Ctx) { c01EntryCreationRule(c, "C01.R8", "") }
+
+func c01EntryCreationRule(c *Ctx, rule, consequence string) {
 	R := c.R
 	F := model.FindFields(c.P)
 	tables := map[string]bool{}
@@ -419,7 +423,7 @@ func c01EntryCreation(c *Ctx) {
 	for _, name := range []string{"(*attrPolicyBuilder).OnElements", "(*attrPolicyBuilder).OnElementsMatching"} {
 		fn := c.P.Func(load.ModPath, name)
 		if fn == nil {
-			R.Unknown("C01.R8", name, name, "", "builder not found")
+			R.Unknown(rule, name, name, "", "builder not found")
 			continue
 		}
 		A := model.NewAnalysis(fn)
@@ -474,10 +478,10 @@ func c01EntryCreation(c *Ctx) {
 						}
 					}
 				}
-				R.Check(inAttrLoop || underFlag, "C01.R8", fmt.Sprintf("%s:entry#%d", name, cnt), name+": creation of an element's table entry", c.P.Pos(mu.Pos()),
-					"only while registering an attribute name, or when the element is allowed without attributes", "the element's entry is created even when no attribute name is registered: AllowAttrs() with an empty name list would put the element on the allowlist")
+				R.Check(inAttrLoop || underFlag, rule, fmt.Sprintf("%s:entry#%d", name, cnt), name+": creation of an element's table entry", c.P.Pos(mu.Pos()),
+					"only while registering an attribute name, or when the element is allowed without attributes", "the element's entry is created even when no attribute name is registered: AllowAttrs() with an empty name list would put the element on the allowlist"+consequence)
 			}
 		}
 	}
-	R.Role("C01.R8", "entry creations in the attribute builders", n, 2)
+	R.Role(rule, "entry creations in the attribute builders", n, 2)
 }
